@@ -520,6 +520,7 @@ def suite(prop, rng, tier):
         rnd(MENU_ALL, N(70, 700), (6, 18))
         cases += known_fault_bases()
         cases += consumer_fault_bases()
+        cases += clone_fault_bases()
     elif prop == "C05":
         rnd(MENU_ALL, N(300, 5000), (10, 60))
     elif prop == "C06":
@@ -561,6 +562,7 @@ def suite(prop, rng, tier):
         rnd(MENU_MAP_CORE + [(5, lambda g: g.eq(m_reg(g), m_reg(g)))] + MENU_SET_CORE
             + [(4, lambda g: g.s_eq(s_reg(g), s_reg(g)))], N(150, 3000), (10, 40), ncls=4)
     elif prop == "C15":
+        cases += clone_fault_bases()
         rnd(MENU_MAP_CORE + [(4, lambda g: g.clone(m_reg(g), m_reg(g))), (2, lambda g: g.eq(0, 1))]
             + MENU_SET_CORE + [(3, lambda g: g.s_clone(s_reg(g), s_reg(g))), (1, lambda g: g.s_eq(2, 3))],
             N(300, 4000), (10, 40), same_caps=True)
@@ -844,6 +846,25 @@ def consumer_fault_bases():
             b.append(f"0 0 0 0 4 2 4 2 ; {fill_m} ; 34 0 {steps} {fate} ; 20 0 0 5 ; 10 0 20 5 21 7")
             b.append(f"0 0 0 0 4 2 4 2 ; {fill_s} ; 141 2 {steps} {fate} ; 122 2 0 5 ; 110 2 20 5")
             b.append(f"0 0 0 0 4 2 4 2 ; {fill_s} ; 134 2 {steps} {fate} ; 122 2 0 5 ; 110 2 20 5")
+    return b
+
+
+def clone_fault_bases():
+    """clone / clone_from between registers of equal capacity whose contents overlap in a different slot order
+    (a key of the source sits at a LATER slot of the destination), then the destination is used: every Clone /
+    Drop fault position inside the copy gets enumerated"""
+    b = []
+    for cf in (67, 60):
+        # maps: source register 0 = classes [6, 5, 7], destination register 1 = [5, 6]
+        b.append(f"0 0 0 0 3 3 3 3 ; 10 0 1 6 2 60 ; 10 0 3 5 4 50 ; 10 0 5 7 6 70 ; 10 1 7 5 8 51 ; 10 1 9 6 10 61 ; "
+                 f"{cf} 0 1 ; 20 1 0 5 ; 31 1 0 6 ; 20 1 0 6 ; 10 1 20 8 21 80 ; 61 0 1")
+        b.append(f"0 0 0 0 3 3 3 3 ; 10 0 1 6 2 60 ; 10 1 7 5 8 51 ; 10 1 9 6 10 61 ; 10 1 11 7 12 71 ; "
+                 f"{cf} 0 1 ; 20 1 0 6 ; 31 1 0 6 ; 20 1 0 6 ; 61 0 1")
+        c = cf + 100
+        b.append(f"0 0 0 0 3 3 3 3 ; 110 2 1 6 ; 110 2 2 5 ; 110 2 3 7 ; 110 3 4 5 ; 110 3 5 6 ; "
+                 f"{c} 2 3 ; 122 3 0 5 ; 131 3 0 6 ; 122 3 0 6 ; 110 3 20 8 ; 161 2 3")
+        b.append(f"0 0 0 0 3 3 3 3 ; 110 2 1 6 ; 110 3 4 5 ; 110 3 5 6 ; 110 3 6 7 ; "
+                 f"{c} 2 3 ; 122 3 0 6 ; 131 3 0 6 ; 161 2 3")
     return b
 
 
